@@ -95,7 +95,8 @@ pub struct Case {
     /// Comment lines before / after the tag inside the same comment (block hosts).
     pub before: u8,
     pub after: u8,
-    pub multiline_tag: bool,
+    /// The start tag spans 1, 2 or 4 lines.
+    pub multiline_tag: u8,
     /// Content begins on the tag's own line, right after the comment (block hosts).
     pub same_line: bool,
     /// 0 none, 1 two spaces, 2 tab: indentation of the tag comment and of the content lines.
@@ -136,7 +137,7 @@ impl Built {
 
 pub fn applicable(c: &Case) -> bool {
     let block = c.host.is_block();
-    if !block && (c.before > 0 || c.after > 0 || c.multiline_tag || c.same_line) {
+    if !block && (c.before > 0 || c.after > 0 || c.multiline_tag > 0 || c.same_line) {
         return false;
     }
     if c.host.markdown() && c.indent != 0 {
@@ -185,16 +186,10 @@ pub fn build(c: &Case) -> Built {
         text.push_str("é≤ ");
     }
     let lt = text.len();
-    if c.multiline_tag {
-        let mut parts = attrs.splitn(2, ' ');
-        let first = parts.next().unwrap();
-        text.push_str(&format!("<block name=\"n\"\n{indent}      {first}"));
-        if let Some(rest) = parts.next() {
-            text.push_str(&format!("\n{indent}      {rest}"));
-        }
-        text.push('>');
-    } else {
-        text.push_str(&format!("<block name=\"n\" {attrs}>"));
+    match c.multiline_tag {
+        0 => text.push_str(&format!("<block name=\"n\" {attrs}>")),
+        1 => text.push_str(&format!("<block name=\"n\"\n{indent}      {attrs}>")),
+        _ => text.push_str(&format!("<block name=\"n\"\n{indent}      x=\"1\"\n{indent}      {attrs}\n{indent}      y=\"2\">")),
     }
     let gt = text.len() - 1;
     for i in 0..c.after {
@@ -322,7 +317,7 @@ fn check_case(c: &Case, sink: &Sink) {
             "{}{}{}{}",
             if c.before > 0 { ":comment-lines-before-tag" } else { "" },
             if c.after > 0 { ":comment-lines-after-tag" } else { "" },
-            if c.multiline_tag { ":multiline-tag" } else { "" },
+            ["", ":two-line-tag", ":four-line-tag"][c.multiline_tag as usize],
             if c.same_line { ":content-on-tag-line" } else { "" }
         );
         let kind = if (got.0, got.2) != (want_start.0, want_end.0) { "wrong-line" } else { "wrong-columns" };
@@ -343,7 +338,7 @@ pub fn all_cases() -> Vec<Case> {
     for host in Host::ALL {
         for before in 0..3u8 {
             for after in 0..3u8 {
-                for multiline_tag in [false, true] {
+                for multiline_tag in 0..3u8 {
                     for same_line in [false, true] {
                         for indent in 0..3u8 {
                             for multibyte in [false, true] {
@@ -366,7 +361,7 @@ pub fn all_cases() -> Vec<Case> {
 }
 
 pub fn run(cfg: &Cfg, sink: &Arc<Sink>) -> Report {
-    let mut report = Report::new("cases = full product of host comment form {Python #, Rust //, Rust ///, JS /* */, Rust /* */, Markdown link-reference, HTML comment, HTML comment in Markdown} × comment lines before the tag 0..2 × after the tag 0..2 × multi-line tag × content starting on the tag's line × indentation {none, 2 spaces, tab} × multi-byte text before tag and key × rule {sorted, sorted by regex group mid-line, unique, unique by regex group, pattern → key range; line-count, check-lua, affects (all-lines-added diff) → tag range} × offending content line 1..3; the reported range must equal the constructed position of the offending key (first to last byte) or of the start tag (`<` to `>`); non-trivial = every applicable case");
+    let mut report = Report::new("cases = full product of host comment form {Python #, Rust //, Rust ///, JS /* */, Rust /* */, Markdown link-reference, HTML comment, HTML comment in Markdown} × comment lines before the tag 0..2 × after the tag 0..2 × start tag on 1, 2 or 4 lines × content starting on the tag's line × indentation {none, 2 spaces, tab} × multi-byte text before tag and key × rule {sorted, sorted by regex group mid-line, unique, unique by regex group, pattern → key range; line-count, check-lua, affects (all-lines-added diff) → tag range} × offending content line 1..3; the reported range must equal the constructed position of the offending key (first to last byte) or of the start tag (`<` to `>`); non-trivial = every applicable case");
     report.assume("check-ai ranges are covered by C19's exploration (same tag range code path as check-lua)");
     let cases = all_cases();
     let n = cases.len();
